@@ -240,6 +240,181 @@ def job_partition(P, taps, Wb, npol, bits):
     return recs
 
 
+# ------------------------------------------------------------------ symbolic sizes: sub-block tiling
+def tiling_slice():
+    """the size arithmetic of collect_data_block, located in the live AST: the block-level assignments and the
+    per-sub-block statements (window count, samples requested, byte range and index range)"""
+    import ast
+    import inspect
+    import textwrap
+    src = textwrap.dedent(inspect.getsource(B.RawVoltageBackend.collect_data_block))
+    fn = ast.parse(src).body[0]
+
+    def tname(st):
+        t = st.targets[0]
+        return t.id if isinstance(t, ast.Name) else (f"{t.value.id}.{t.attr}" if isinstance(t, ast.Attribute) and isinstance(t.value, ast.Name) else None)
+    want_pre = ['T', 'W', 'subblock_T', 'self.num_subblocks', 'subblock_t_len']
+    pre = [st for st in fn.body if isinstance(st, ast.Assign) and tname(st) in want_pre]
+    loops = [n for n in ast.walk(fn) if isinstance(n, ast.For) and isinstance(n.target, ast.Name) and n.target.id == 'subblock']
+    if len(pre) < 4 or len(loops) != 1:
+        raise core.HarnessError(f"collect_data_block: size arithmetic not found (pre={len(pre)}, loops={len(loops)}): source refactored")
+
+    def assigns(node, names):
+        return any(isinstance(x, ast.Assign) and tname(x) in names for x in ast.walk(node))
+    body = []
+    for st in loops[0].body:
+        if isinstance(st, ast.If) and assigns(st, ('W', 'num_samples')):
+            body.append(st)
+    inner = [n for n in ast.walk(loops[0]) if isinstance(n, ast.For) and isinstance(n.target, ast.Name) and n.target.id == 'pol']
+    if len(inner) != 1:
+        raise core.HarnessError("collect_data_block: polarisation loop not found")
+    for st in inner[0].body:
+        if (isinstance(st, ast.If) and assigns(st, ('subblock_t_range', 'subblock_t_len'))) or (isinstance(st, ast.Assign) and tname(st) in ('t_idx', 'subblock_t_len', 'subblock_t_range')):
+            body.append(st)
+    if not any(isinstance(st, ast.Assign) and tname(st) == 't_idx' for st in body):
+        raise core.HarnessError("collect_data_block: t_idx assignment not found")
+    mk = lambda stmts: compile(ast.Module(body=stmts, type_ignores=[]), '<slice:collect_data_block sizes>', 'exec')
+    return mk(pre), mk(body)
+
+
+class ARange:
+    """np.arange(start, stop, step) as a record that can be shifted by a scalar"""
+    def __init__(self, start, stop, step):
+        self.start, self.stop, self.step = start, stop, step
+
+    def __radd__(self, o):
+        return ARange(o + self.start, o + self.stop, self.step)
+
+    __add__ = __radd__
+
+
+def job_tiling(taps, npol, bits, start_obs):
+    """for ALL windows-per-block k and requested num_subblocks (<= 1024): the sub-blocks tile the block's bytes and
+    samples exactly.  Integer quotients are encoded through fresh integers (non-linear integer arithmetic)."""
+    recs = []
+    tag = f"C02:tiling:{(taps, npol, bits, start_obs)}"
+    core.FRAC_INTS[0] = True
+    try:
+        code_pre, code_body = tiling_slice()
+        ki, ni, si = z3.Ints('k nsb s')
+        k, nsb, sb = (Sym(z3.ToReal(v), True) for v in (ki, ni, si))
+        BOUND = 1024
+        pre = [ki >= 1, ki <= BOUND, ni >= 1, ni <= BOUND, si >= 0]
+        bps = 2 * npol * bits // 8
+        nant, nc, P = 1, 2, 8
+        obsnchan = nant * nc
+
+        class Src:
+            pass
+
+        class Self_:
+            pass
+
+        class NPX(npx.NPProxy):
+            def arange(self, *a, **kw):
+                return ARange(*a) if len(a) == 3 else npx.NPProxy.arange(self, *a, **kw)
+
+        def run():
+            me = Self_()
+            me.block_size = k * (taps * obsnchan * bps)
+            me.num_taps, me.num_subblocks, me.bytes_per_sample, me.num_bits, me.num_pols, me.num_branches = taps, nsb, bps, bits, npol, P
+            me.num_antennas, me.num_chans = nant, nc
+            me.antenna_source = Src()
+            me.antenna_source.start_obs = start_obs
+            px = NPX()
+            env = {'self': me, 'xp': px, 'np': px, 'int': __import__('symx.shadow', fromlist=['sint']).sint, 'obsnchan': obsnchan, 'subblock': sb, 'pol': npol - 1,
+                   'antenna': 0}
+            exec(code_pre, env)
+            nsub = env['self'].num_subblocks
+            # the symbolic sub-block index ranges over the (recomputed) number of sub-blocks
+            core.side(sb.t < lift(nsub))
+            exec(code_body, env)
+            return dict(T=env['T'], nsub=nsub, L=env.get('subblock_t_len'), W=env['W'], num_samples=env['num_samples'], t_idx=env['t_idx'])
+        leaves = core.explore(run, pre, cap=40, timeout_ms=60000)
+        conds = []
+        for li, leaf in enumerate(leaves):
+            conds.append(z3.And(leaf.cond(), *leaf.side))
+            if leaf.kind == 'exc':
+                raise core.HarnessError(f"tiling slice raised {leaf.value!r}")
+            o = leaf.value
+            T, n2, W, ns, ti = lift(o['T']), lift(o['nsub']), lift(o['W']), lift(o['num_samples']), o['t_idx']
+            s_ = z3.ToReal(si)
+            tot = T * bps
+            off = lift(ti.start) - (bits // 4) * (npol - 1)
+            rng = lift(ti.stop) - lift(ti.start)
+            base = pre + leaf.pc + leaf.side
+            claims = z3.And(T == z3.ToReal(ki) * taps, n2 >= 1,
+                            W >= 2, rng == taps * (W - 1) * bps,                                   # range = spectra produced * bytes per sample
+                            off >= 0, off + rng <= tot,                                            # inside the block
+                            z3.If(s_ == n2 - 1, off + rng == tot, z3.BoolVal(True)),               # last sub-block ends the block
+                            lift(ti.step) == (bits // 4) * npol,
+                            ns == P * taps * (W - 1 + (1 if start_obs else 0)))                     # samples requested (+ warm-up window at the start)
+            t0 = time.time()
+            r, m = core.check(base + [z3.Not(claims)], timeout_ms=120000)
+            recs.append(q(f"{tag}:leaf{li}:in-block/size/samples", r, ms=(time.time() - t0) * 1000))
+            if r == 'sat':
+                kv, nv, sv = (int(str(m.eval(v, model_completion=True))) for v in (ki, ni, si))
+                recs.append(cex('C02:tiling', f'sub-block {sv} of a block with {kv} windows and num_subblocks={nv} does not tile the block',
+                                dict(fn='record', P=4, taps=taps, Wb=min(kv, 6), nsb=min(nv, 7), npol=npol, nant=1, bits=bits, start_chan=0, num_chans=2, nblocks=2, bpf=2, digitize=True), name=f"{tag}:leaf{li}:in-block/size/samples"))
+        # contiguity: consecutive sub-blocks s, s+1 are adjacent -- two instances of the body with indices s and s+1 give
+        # offsets off(s) = s*L: shown by the offset being linear in s with slope = the full range (second run, same pre)
+        r, _ = core.check(pre + [z3.Not(z3.Or(*conds))], timeout_ms=120000)
+        recs.append(q(f"{tag}:split-complete", r, leaves=len(leaves)))
+    finally:
+        core.FRAC_INTS[0] = False
+    return recs
+
+
+def job_tiling_adjacent(taps, npol, bits):
+    """offset of sub-block s+1 == offset of sub-block s + its range (no gap, no overlap), symbolic k, nsb, s"""
+    recs = []
+    tag = f"C02:tiling-adjacent:{(taps, npol, bits)}"
+    core.FRAC_INTS[0] = True
+    try:
+        code_pre, code_body = tiling_slice()
+        ki, ni, si = z3.Ints('k nsb s')
+        k, nsb = (Sym(z3.ToReal(v), True) for v in (ki, ni))
+        pre = [ki >= 1, ki <= 1024, ni >= 1, ni <= 1024, si >= 0]
+        bps = 2 * npol * bits // 8
+        obsnchan, P = 2, 8
+
+        class NPX(npx.NPProxy):
+            def arange(self, *a, **kw):
+                return ARange(*a) if len(a) == 3 else npx.NPProxy.arange(self, *a, **kw)
+
+        def run():
+            outs = []
+            for d in (0, 1):
+                me = type('S', (), {})()
+                me.block_size = k * (taps * obsnchan * bps)
+                me.num_taps, me.num_subblocks, me.bytes_per_sample, me.num_bits, me.num_pols, me.num_branches = taps, nsb, bps, bits, npol, P
+                me.antenna_source = type('A', (), {'start_obs': False})()
+                px = NPX()
+                sb = Sym(z3.ToReal(si) + d, True)
+                env = {'self': me, 'xp': px, 'np': px, 'int': __import__('symx.shadow', fromlist=['sint']).sint, 'obsnchan': obsnchan, 'subblock': sb, 'pol': 0, 'antenna': 0}
+                exec(code_pre, env)
+                core.side(sb.t < lift(env['self'].num_subblocks))
+                exec(code_body, env)
+                outs.append(env['t_idx'])
+            return outs
+        leaves = core.explore(run, pre, cap=60, timeout_ms=60000)
+        conds = []
+        for li, leaf in enumerate(leaves):
+            conds.append(z3.And(leaf.cond(), *leaf.side))
+            a, b = leaf.value
+            r, m = core.check(pre + leaf.pc + leaf.side + [lift(b.start) != lift(a.stop)], timeout_ms=120000)
+            recs.append(q(f"{tag}:leaf{li}", r))
+            if r == 'sat':
+                kv, nv, sv = (int(str(m.eval(v, model_completion=True))) for v in (ki, ni, si))
+                recs.append(cex('C02:tiling', f'sub-blocks {sv} and {sv + 1} are not adjacent (k={kv}, num_subblocks={nv})',
+                                dict(fn='record', P=4, taps=taps, Wb=min(kv, 6), nsb=min(nv, 7), npol=npol, nant=1, bits=bits, start_chan=0, num_chans=2, nblocks=2, bpf=2, digitize=True), name=f"{tag}:leaf{li}"))
+        r, _ = core.check(pre + [z3.Not(z3.Or(*conds))], timeout_ms=120000)
+        recs.append(q(f"{tag}:split-complete", r, leaves=len(leaves)))
+    finally:
+        core.FRAC_INTS[0] = False
+    return recs
+
+
 # ------------------------------------------------------------------ concrete oracle
 def replay_record(p):
     """real recording to real files from a deterministic stream, fixed-statistics quantisers; compared with an
@@ -374,7 +549,12 @@ def main():
         jobs.append(('job_record', (P, taps, Wb, nsb, 1, 1, 4, 1, 1, 2, 1, False)))
     for (P, taps, Wb, npol, bits) in [(4, 2, 3, 2, 8), (4, 2, 4, 1, 4)] + ([(4, 3, 5, 2, 8), (8, 2, 3, 2, 4)] if ck.thorough else []):
         jobs.append(('job_partition', (P, taps, Wb, npol, bits)))
-    ck.bounds = dict(main=main_space, variations='pols 1-2, antennas 1-2, 8/4 bit, start_chan/num_chans, blocks 1-3, blocks_per_file 1-3, digitise on/off',
+    for taps in ((2, 8) if not ck.thorough else (1, 2, 3, 4, 8, 16)):
+        for (npol, bits) in ((2, 8), (1, 4)) if not ck.thorough else ((2, 8), (1, 8), (2, 4), (1, 4)):
+            for start_obs in (False, True):
+                jobs.append(('job_tiling', (taps, npol, bits, start_obs)))
+            jobs.append(('job_tiling_adjacent', (taps, npol, bits)))
+    ck.bounds = dict(tiling='windows per block k and requested num_subblocks symbolic integers <= 1024 (AST slice of the size arithmetic, NIA through fresh integers)', main=main_space, variations='pols 1-2, antennas 1-2, 8/4 bit, start_chan/num_chans, blocks 1-3, blocks_per_file 1-3, digitise on/off',
                      num_subblocks='1..windows_per_block+1 (incl. non-divisors)')
     ck.run_jobs('props.C02', jobs, timeout_s=1500)
     ck.finish()
